@@ -61,16 +61,17 @@ def coq_sources():
     return sorted(out)
 
 
-def coq_make():
-    """Full .vo build (incremental), serialised across concurrent checks."""
+def coq_make(targets=None):
+    """Full .vo build (incremental), serialised across concurrent checks.
+    With targets, only those .vo files and what they depend on."""
     import fcntl
     os.makedirs(BUILD, exist_ok=True)
     with open(os.path.join(BUILD, "coq.lock"), "w") as lk:
         fcntl.flock(lk, fcntl.LOCK_EX)
-        return _coq_make()
+        return _coq_make(targets)
 
 
-def _coq_make():
+def _coq_make(targets=None):
     mk = os.path.join(COQ, "Makefile.coq")
     files = [os.path.relpath(f, COQ) for f in coq_sources()]
     proj = "-Q . Gnmi\n-arg -w -arg -notation-overridden,-deprecated-hint-without-locality,-deprecated-instance-without-locality\n" + "\n".join(files) + "\n"
@@ -79,38 +80,40 @@ def _coq_make():
     if old != proj or not os.path.exists(mk):
         open(pj, "w").write(proj)
         sh(["coq_makefile", "-f", "_CoqProject", "-o", "Makefile.coq"], cwd=COQ, check=True)
-    rc, out = sh(["make", "-f", "Makefile.coq", "-j16"], cwd=COQ, timeout=3000)
+    rc, out = sh(["make", "-f", "Makefile.coq", "-j16"] + list(targets or []), cwd=COQ, timeout=3000)
     return rc == 0, out
 
 
 def forbidden_tokens():
     hits = []
     for f in coq_sources():
-        txt = open(f, errors="replace").read()
-        # strip comments (non-nested approximation is not enough: do it properly)
-        depth, i, buf = 0, 0, []
-        while i < len(txt):
-            if txt.startswith("(*", i):
-                depth += 1
-                i += 2
-            elif txt.startswith("*)", i) and depth > 0:
-                depth -= 1
-                i += 2
-            else:
-                if depth == 0:
-                    buf.append(txt[i])
-                i += 1
-        code = "".join(buf)
+        code = strip_comments(open(f, errors="replace").read())
         for n, line in enumerate(code.split("\n"), 1):
             if FORBIDDEN.search(line):
                 hits.append("%s: %s" % (os.path.relpath(f, ROOT), line.strip()))
     return hits
 
 
+def strip_comments(txt):
+    depth, i, buf = 0, 0, []
+    while i < len(txt):
+        if txt.startswith("(*", i):
+            depth += 1
+            i += 2
+        elif txt.startswith("*)", i) and depth > 0:
+            depth -= 1
+            i += 2
+        else:
+            if depth == 0 or txt[i] == "\n":
+                buf.append(txt[i])
+            i += 1
+    return "".join(buf)
+
+
 def check_props(pid):
     """Re-check Props/<pid>.v.  Returns dict(theorems, ok, axioms, log, failing)."""
     src = os.path.join(COQ, "Props", pid + ".v")
-    txt = open(src).read()
+    txt = strip_comments(open(src).read())
     theorems = re.findall(r"^\s*Theorem\s+([A-Za-z0-9_']+)", txt, flags=re.M)
     rc, out = sh(["coqc", "-Q", ".", "Gnmi", "Props/%s.v" % pid], cwd=COQ, timeout=1200)
     axioms = set()
@@ -237,7 +240,7 @@ class Check:
 
     def __init__(self, pid, harness, harness_args=None, assumptions=None, modelled=None,
                  extra_trusted=None, timeout_quick=600, timeout_thorough=7200, env=None,
-                 search_seeds=3):
+                 search_seeds=3, coq_targets=None):
         self.pid = pid
         self.harness = harness
         self.harness_args = harness_args or []
@@ -248,6 +251,7 @@ class Check:
         self.timeout_thorough = timeout_thorough
         self.env = env or {}
         self.search_seeds = search_seeds
+        self.coq_targets = coq_targets
 
     # -- pieces ------------------------------------------------------------
     def rundir(self, sub="main"):
@@ -287,7 +291,7 @@ class Check:
         notes = []
 
         # 1. theorems
-        ok, mlog = coq_make()
+        ok, mlog = coq_make(self.coq_targets)
         props = None
         if not ok:
             m = re.search(r"File \"\./([^\"]+)\", line (\d+)", mlog)
